@@ -277,6 +277,10 @@ def run(tier: str, seed: int) -> int:
     accepts = [c for c in cases if c['ref'] == 'ok']
     if tier == 'quick':
         picked, strata = fx.stratified_sample(accepts, _stratum, 1, seed)
+        # overlap_save is the method with a loop: its block arithmetic depends on how n relates to the step, so every
+        # unbatched configuration (all n, K, fft sizes) is replayed, not one per stratum
+        ids = {c['id'] for c in picked}
+        picked += [c for c in accepts if c['method'] == 'overlap_save' and c['xs'] == [c['n']] and c['id'] not in ids]
         picked += rejects
         sampled = True
     else:
